@@ -134,6 +134,16 @@ impl Stack {
 }
 
 impl Stack {
+    /// Number of values on the stack.
+    pub(crate) fn len(&self) -> usize {
+        self.stack.len()
+    }
+
+    /// Shortens the stack to `len` values.
+    pub(crate) fn truncate(&mut self, len: usize) {
+        self.stack.truncate(len);
+    }
+
     /// Creates a new stack with the given capacity.
     fn new(capacity: usize) -> Self {
         Self {
@@ -841,6 +851,14 @@ impl Context {
             if let Some(frame) = frame {
                 self.vm.stack.truncate_to_frame(&frame);
             }
+            // The frame that returns to the host must be unwound too, exactly like
+            // `handle_throw` does for an ordinary exception.
+            if self.vm.frame().exit_early() {
+                let env_fp = self.vm.frame().env_fp as usize;
+                self.vm.frame_mut().environments.truncate(env_fp);
+                let frame = self.vm.frames.last().expect("frame must exist");
+                self.vm.stack.truncate_to_frame(frame);
+            }
             return ControlFlow::Break(CompletionRecord::Throw(err));
         }
 
@@ -933,10 +951,15 @@ impl Context {
             let exit_early = self.vm.frame().exit_early();
 
             if self.vm.handle_exception_at(pc) {
+                // Drop the stack portion of the frames that were unwound.
+                self.vm.stack.truncate_to_frame(&frame);
                 return ControlFlow::Continue(());
             }
 
             if exit_early {
+                self.vm.frame_mut().environments.truncate(env_fp as usize);
+                let frame = self.vm.frames.last().expect("frame must exist");
+                self.vm.stack.truncate_to_frame(frame);
                 return ControlFlow::Break(CompletionRecord::Throw(
                     self.vm
                         .pending_exception
